@@ -46,7 +46,17 @@ Proof.
   apply (D (it_id xt)); [eapply sub_it_in; exact H|]. destruct xt; left; reflexivity.
 Qed.
 
+(* ... and so is a collection that holds one object twice, however it is built (constructor or
+   the immutable form .ed(), which also takes live objects) *)
+Theorem C16_twice_detected : forall (xt : itree) n c, xcheck (IT n c [xt; xt] [] None) = true.
+Proof.
+  intros xt n c. apply xcheck_iff. cbn [obj_ids map List.concat]. rewrite !app_nil_r.
+  intro ND. inversion ND as [|? ? _ ND']; subst. apply NoDup_app_inv in ND' as (_ & _ & D).
+  apply (D (it_id xt)); destruct xt; left; reflexivity.
+Qed.
+
 Print Assumptions C16_detects_exactly.
+Print Assumptions C16_twice_detected.
 Print Assumptions C16_rejected_fillnp_changes_nothing.
 Print Assumptions C16_graft_detected.
 Print Assumptions C16_rejected_fill_changes_nothing.
